@@ -392,6 +392,30 @@ inline std::vector<TGraph> structured_families() {
         g.edges = {{0, 1}, {1, 2}, {2, 0}, {2, 3}, {3, 4}, {4, 5}, {5, 3}, {5, 6}, {6, 7}, {6, 8}};
         g.w = {1, 1, 1, 4, 2, 2, 2, 1, 1, 1}; v.push_back(g);
     }
+    // heavy spanning structure, light remaining edges: minimum cycles then run over MANY non-tree edges (support vectors with
+    // several signed edges in one lightest odd cycle) - the regime in which shortcuts of the signed search show
+    for (int core = 4; core <= 5; core++) for (int hub_first = 0; hub_first < 2; hub_first++) {
+        TGraph g; g.n = core + 1; g.tag = std::string("heavy-hub-K") + std::to_string(core) + (hub_first ? "-first" : "-last");
+        int hub = hub_first ? 0 : core; auto id = [&](int i) { return hub_first ? i + 1 : i; };
+        const double lw[] = {1, 1, 2, 3, 3, 4, 2, 1, 4, 3};
+        int k = 0;
+        for (int i = 0; i < core; i++) for (int j = i + 1; j < core; j++) { g.edges.push_back({id(i), id(j)}); g.w.push_back(lw[k++ % 10]); }
+        for (int i = 0; i < core; i++) { g.edges.push_back({hub, id(i)}); g.w.push_back(20); }
+        v.push_back(g);
+    }
+    {   // K4 whose light 4-cycle 0-1-2-3 beats every cycle through a single chord, under a heavy star (seed S43)
+        TGraph g; g.n = 5; g.tag = "heavy-hub-K4-cyclic";
+        g.edges = {{0, 1}, {1, 2}, {2, 3}, {3, 0}, {0, 2}, {1, 3}, {4, 0}, {4, 1}, {4, 2}, {4, 3}};
+        g.w = {1, 1, 2, 3, 3, 4, 20, 20, 20, 20}; v.push_back(g);
+    }
+    {   // heavy Hamiltonian path, light chords
+        TGraph g; g.n = 6; g.tag = "heavy-path-light-chords";
+        for (int i = 0; i + 1 < 6; i++) { g.edges.push_back({i, i + 1}); g.w.push_back(15); }
+        const int ch[][2] = {{0, 2}, {1, 3}, {2, 4}, {3, 5}, {0, 3}, {1, 4}, {2, 5}, {0, 5}};
+        const double cw[] = {1, 2, 1, 3, 2, 1, 2, 4};
+        for (int i = 0; i < 8; i++) { g.edges.push_back({ch[i][0], ch[i][1]}); g.w.push_back(cw[i]); }
+        v.push_back(g);
+    }
     return v;
 }
 
